@@ -4,9 +4,12 @@ from checks import lach_common as lc
 
 
 def run(c):
+    vx = lc.run_vecindex(c, c.pick(["v31_5", "v11_5"], ["v31_6", "v11_6", "v211_6"]), "merged-clock", ["merged-clock", "merged-clock-adapter"])
+    c.guard("model_merged_fork_entries", vx["total"].get("merged_fork_entries", 0))
+    c.guard("model_states_with_forks", vx["total"].get("states_with_forks", 0))
     res = lc.run_profile(c, "c06", c.pick(10, 120), "merged-clock")
     st = res["stats"]
     c.guard("mhb_queries", st.get("mhb_queries", 0))
     c.guard("mhb_fork_entries", st.get("mhb_fork_entries", 0))
     c.guard("restarts", st.get("restarts", 0))
-    return lc.finish(c, res, "merged highest-before vector of every processed event, from the index and from the adapter, two indexing orders, restarts every 7 events", extra=None)
+    return lc.finish(c, res, "merged highest-before vector of every processed event, from the index and from the adapter, two indexing orders, restarts every 7 events", extra=dict(vecindex_model=vx["total"], vecindex_sample=vx["sample"]))
